@@ -615,6 +615,12 @@ def drive(check_name, tier, verif_seed, budget_s=None, max_runs=None,
     # determinism self-test first (cheap, in the main process)
     if selftest_seeds is None:
         selftest_seeds = 16 if tier == "quick" else 128
+        if tier != "quick" and budget_s < 0.9 * check.thorough_budget_s:
+            # a thorough run with a reduced budget: the self-test is sized
+            # for the full budget and would otherwise eat all of a short one
+            # (a 210 s run of C17 started no seeded history at all)
+            selftest_seeds = max(16, int(128 * budget_s /
+                                         check.thorough_budget_s))
     selftest = {"seeds": 0, "agree": 0}
     if selftest_seeds:
         selftest = determinism_selftest(check, check_name, tier, verif_seed,
